@@ -45,6 +45,27 @@ CHECKS = {
     note='Quick: ~700 selfdestruct shapes sampled by seed (always all public/external unguarded ones), thorough: all ~2000. Oracle leaves '
          'undocumented msg.sender uses free. Same trusted base as C05.',
     technique='symbolic execution of MIR over function/pragma families + Z3 strings, native replay of every path', design='6/C07, 8'),
+ 'C06': dict(
+    text='The 5 declaration-level detectors executed from MIR on every shape of function (kind x visibility x payable x body x underscore x contract '
+         'kind x attribute order) and state variable (type x visibility x constant/immutable x underscore), on member sequences over function / '
+         'modifier / constructor / receive / variable in 1-3 contracts and with free functions; the oracle is the iff-condition of the property, '
+         'evaluated per declaration (for constructor_order per contract prefix), so members of other items may not influence a verdict.',
+    note='Quick: all sequence/ordering cases + 260 shapes by seed; thorough: all ~1000 files x 5 detectors. Every path replayed through the real parser and '
+         'the compiled detector. Same trusted base as C05.',
+    technique='symbolic execution of MIR over declaration families, native replay of every path', design='6/C06, 8'),
+ 'C08': dict(
+    text='constant_variables, immutable_variables, memory_to_calldata and sstore executed from MIR on files with a state variable / parameter and a write: '
+         '15 write forms x target (direct, index, member, tuple, parenthesised, other name) x member kind (constructor, public/internal function, modifier, '
+         'free function, fallback, library) x syntactic position (C05 catalogue), with and without a qualifying constructor assignment; never/always clauses '
+         'of the property as a three-valued oracle over the whole file.',
+    note='Quick: 900 of ~1700 files by seed. HashMap<String,_> by contract (association list). Depends on the real walker, so C01 defects show up here too.',
+    technique='symbolic execution of MIR over write families, native replay of every path', design='6/C08, 8'),
+ 'C09': dict(
+    text='The four version-gated detectors executed through the real version extraction (regex by contract on a structured string, split, parse::<i32>) with the '
+         'pragma value op ++ M.m.p where M, m, p are SYMBOLIC naturals < 2^31: Z3 decides the gate for every version triple (lexicographic comparison with 0.8.0 / '
+         '0.8.4), every operator spelling, placements of experimental/abicoder pragmas, SafeMath attachment at file/contract level, and a symbolic revert-string length.',
+    note='Monotonicity and pre/post exclusivity follow from the iff-oracle. Regex contract validated natively on every path. Outside: range pragmas.',
+    technique='symbolic execution of MIR + Z3 over integer version triples, native replay', design='6/C09'),
 }
 NOT_YET = "check not built yet (framework under construction); see DESIGN.md section 6"
 NA = {
